@@ -62,23 +62,45 @@ package envelope
 
 // matchPrivKeys maps envelope keypair indexes to offered private keys (non-nil ones).
 //@ func matchPrivKeys
-//@   noframe
 //@   nilable env
 //@   requires forall i int trigger privKeys[i] :: 0 <= i && i < len(privKeys) ==> privKeys[i] != nil && privKeyOK(privKeys[i])
+//@   loop 1 invariant forall j int trigger privEntries[j].pem :: 0 <= j && j < len(privEntries) ==> fresh(privEntries[j].pem)
+//@   loop 2 invariant forall j int trigger privEntries[j].pem :: 0 <= j && j < len(privEntries) ==> fresh(privEntries[j].pem)
+//@   loop 3 invariant forall j int trigger privEntries[j].pem :: 0 <= j && j < len(privEntries) ==> fresh(privEntries[j].pem)
+//@   loop 4 invariant forall j int trigger privEntries[j].pem :: 0 <= j && j < len(privEntries) ==> fresh(privEntries[j].pem)
+//@   loop 1 invariant -1 <= rangeindex && forall j int trigger privEntries[j].key :: 0 <= j && j < len(privEntries) ==> privEntries[j].key != nil && privKeyOK(privEntries[j].key)
+//@   loop 2 invariant result != nil && (forall j int trigger privEntries[j].key :: 0 <= j && j < len(privEntries) ==> privEntries[j].key != nil && privKeyOK(privEntries[j].key)) && (forall k int trigger dom(result, k) :: (k in result) ==> result[k] != nil && privKeyOK(result[k]))
+//@   loop 3 invariant -1 <= rangeindex && result != nil && (forall j int trigger privEntries[j].key :: 0 <= j && j < len(privEntries) ==> privEntries[j].key != nil && privKeyOK(privEntries[j].key)) && (forall k int trigger dom(result, k) :: (k in result) ==> result[k] != nil && privKeyOK(result[k]))
+//@   loop 4 invariant -1 <= rangeindex && result != nil && (forall k int trigger dom(result, k) :: (k in result) ==> result[k] != nil && privKeyOK(result[k]))
 //@   ensures ret1 == nil && ret0 != nil
 //@   ensures forall k int trigger dom(ret0, k) :: (k in ret0) ==> ret0[k] != nil && privKeyOK(ret0[k])
+//@   fresh ret0
 
 // UnlockEnvelope:
 //  - a context other than the sealed one is refused with ErrContextMismatch (C18);
-//  - it returns a payload only after collecting more than threshold shares, and "not enough
-//    shares" (nil payload, nil error) only with fewer than threshold+1 (C16);
+//  - it reports success only after collecting more than threshold shares, and "not enough shares"
+//    (no success, nil error) only with fewer than threshold+1 (C16);
 //  - the reported counts are the number of shares collected and threshold+1 (32-bit).
 //@ func UnlockEnvelope
 //@   noframe
 //@   nilable env
 //@   requires forall i int trigger privKeys[i] :: 0 <= i && i < len(privKeys) ==> privKeys[i] != nil && privKeyOK(privKeys[i])
-//@   ensures env != nil && len(env.Grants) > 0 && len(env.Keypairs) > 0 && content(env.ContextHash) != blake3(context) ==> ret2 == ErrContextMismatch && ret0 == nil && ret1 == nil
+// every share collected has an encoded ID of its own: one entry of `seen` per collected share
+//@   loop 1 invariant seen != nil && len(collected) == len(seen)
+//@   loop 2 invariant seen != nil && len(collected) == len(seen)
+//@   loop 3 invariant seen != nil && len(collected) == len(seen)
+//@   assert at exit: ret2 == nil ==> len(collected) == len(seen)
+//@   loop 1 invariant -1 <= rangeindex && forall k int trigger dom(matched, k) :: (k in matched) ==> matched[k] != nil && privKeyOK(matched[k])
+//@   loop 2 invariant -1 <= rangeindex && len(kpIndexes) == len(ciphertexts) && forall k int trigger dom(matched, k) :: (k in matched) ==> matched[k] != nil && privKeyOK(matched[k])
+//@   loop 3 invariant -1 <= rangeindex && forall k int trigger dom(matched, k) :: (k in matched) ==> matched[k] != nil && privKeyOK(matched[k])
+//@   ensures env != nil && old(len(env.Grants) > 0 && len(env.Keypairs) > 0 && content(env.ContextHash) != blake3(context)) ==> ret2 == ErrContextMismatch && ret0 == nil && ret1 == nil
 //@   assert at exit: ret2 == nil ==> ret1 != nil && ret1.SharesNeeded == (threshold + 1) % 4294967296 && ret1.SharesAvailable == len(collected) % 4294967296
-//@   assert at exit: ret2 == nil && ret0 != nil ==> ret1.Success && len(collected) >= threshold + 1
-//@   assert at exit: ret2 == nil && ret0 == nil ==> !ret1.Success && len(collected) % 4294967296 < (threshold + 1) % 4294967296
+//@   assert at exit: ret2 == nil && ret1.Success ==> len(collected) >= threshold + 1
+//@   assert at exit: ret2 == nil && !ret1.Success ==> ret0 == nil && len(collected) % 4294967296 < (threshold + 1) % 4294967296
 //@   ensures ret2 != nil ==> ret0 == nil && ret1 == nil
+
+// generated protobuf decoder: fills the message it is given, allocating what it needs
+//@ func (*EnvelopeGrantInner).UnmarshalVT
+//@   trusted generated code (vtprotobuf)
+//@   modifies m
+//@   writes H_slice H_ptr H_uint8
